@@ -12,7 +12,8 @@ fn respond(enc_header: &str, body: &[u8], chunked: bool) -> Vec<u8> {
     w.extend_from_slice(enc_header.as_bytes());
     if chunked {
         w.extend_from_slice(b"Transfer-Encoding: chunked\r\n\r\n");
-        for c in body.chunks(7) { w.extend_from_slice(format!("{:x}\r\n", c.len()).as_bytes()); w.extend_from_slice(c); w.extend_from_slice(b"\r\n"); }
+        // (chunk-size lines in the spellings the grammar allows: no, one, two and three chunk extensions)
+        for (i, c) in body.chunks(7).enumerate() { w.extend_from_slice(format!("{:x}{}\r\n", c.len(), ["", ";a=1", ";sig=abc;seq=1", ";x;y=\"q\";z=3"][i % 4]).as_bytes()); w.extend_from_slice(c); w.extend_from_slice(b"\r\n"); }
         w.extend_from_slice(b"0\r\n\r\n");
     } else {
         w.extend_from_slice(format!("Content-Length: {}\r\n\r\n", body.len()).as_bytes()); w.extend_from_slice(body);
